@@ -42,6 +42,8 @@ type Case struct {
 	History []json.RawMessage `json:"history,omitempty"`
 	// Dirty: how Data was derived from an example (dirty.go)
 	Dirty *DirtySpec `json:"dirty,omitempty"`
+	// Tampered: Data is an envelope whose document was edited after calculation (tampered.go)
+	Tampered string `json:"tampered,omitempty"`
 }
 
 func exampleFiles(repo string) []string {
@@ -247,6 +249,13 @@ func Run(c *core.Ctx) int {
 			dirtyReplay(c, rc)
 			return c.Finish("replay of one dirty input", nil)
 		}
+		if rc.Tampered != "" {
+			c.Eval("tampered:"+rc.Name, true)
+			if diff, _ := validateUnchanged(rc.Data); diff != "" {
+				c.Fail("", "validate/digest/verify/extract changed an envelope whose document was edited after calculation ("+rc.Tampered+"): "+diff, rc)
+			}
+			return c.Finish("replay of one edited envelope", nil)
+		}
 	} else {
 		var invoices []Case
 		for _, f := range exampleFiles(c.Repo) {
@@ -446,6 +455,11 @@ func Run(c *core.Ctx) int {
 				c.Fail("", "validate/digest/verify/extract changed the envelope: "+firstDiff(b1, b), cs)
 				continue
 			}
+		}
+		// (2a) the same for the envelope with one member of its document removed or altered after
+		// calculation (tampered.go): the examples and the examples with an addon
+		if cs.Doc == nil && cs.CR == nil && rc.Data == nil && !strings.ContainsAny(cs.Name, "@&~") {
+			tamperedValidate(c, cs, b1)
 		}
 		// (2b) the same for the envelope once it is signed and carries header entries in an order that is
 		// not the sorted one (stamps are only allowed on signed envelopes): read, validate, digest, verify
